@@ -375,6 +375,10 @@ class Program(object):
         else:
             ci = self.classes.get(cls)
             f = ci.methods.get(name) if ci else None
+            if f is None and ci is not None and not (name.startswith("__") and name.endswith("__") and name != "__call__"):
+                # the method may have been pulled up into a (new) base class: what the class does when the method is called is the inherited implementation,
+                # analysed for this class (its own hooks)
+                f = self.resolve(cls, name)
         if f is None:
             raise AnalysisError("anchor missing: %s %s%s" % (module, (cls + ".") if cls else "", name))
         return f
@@ -437,8 +441,11 @@ def ctor_field_map(prog, cname):
         params = set(fi.params[1:]) | set(fi.kwonly)
         selfname = fi.params[0] if fi.params else "self"
         for n in ast.walk(fi.node):
-            if isinstance(n, ast.Assign) and len(n.targets) == 1 and isinstance(n.value, ast.Name) and n.value.id in params:
+            val = n.value if isinstance(n, ast.Assign) else None
+            if (isinstance(val, ast.Call) and isinstance(val.func, ast.Name) and val.func.id == "bool" and len(val.args) == 1 and not val.keywords):
+                val = val.args[0]  # a flag stored as bool(flag) is still that flag (it is only ever used as a truth value)
+            if isinstance(n, ast.Assign) and len(n.targets) == 1 and isinstance(val, ast.Name) and val.id in params:
                 t = n.targets[0]
                 if isinstance(t, ast.Attribute) and isinstance(t.value, ast.Name) and t.value.id == selfname and t.attr.startswith("_") and not t.attr.startswith("__"):
-                    out.setdefault(t.attr, "ctor:%s" % n.value.id)
+                    out.setdefault(t.attr, "ctor:%s" % val.id)
     return out
